@@ -99,3 +99,53 @@ Proof.
     { unfold binary_overflow in H. cbn in H. destruct r; cbn in H; try discriminate; reflexivity. }
     rewrite Hinf. reflexivity.
 Qed.
+
+(** addF / subF (as regenerated, after F32's repair): for finite operands the
+    result is float_overflow or the correctly rounded sum, which is finite; an
+    IEEE sum that is out of range is always reported.  (That float_overflow is
+    ALSO reported for some finite sums is the recorded finding F9.) *)
+Theorem addF_correct (x y : f64) : fis_finite x = true -> fis_finite y = true ->
+  let s := rnd (B2R 53 1024 x + B2R 53 1024 y) in
+  if Rlt_bool (Rabs s) (bpow radix2 1024) then
+    addF x y = Err (EExc FloatOverflow) \/
+    exists r, addF x y = Ok r /\ B2R 53 1024 r = s /\ fis_finite r = true
+  else addF x y = Err (EExc FloatOverflow).
+Proof.
+  intros Hx Hy s. unfold addF.
+  destruct (fgt y (of_bits 0) && fgt x (fsub (of_bits 9218868437227405311) y));
+    [destruct (Rlt_bool (Rabs s) (bpow radix2 1024)); [left|]; reflexivity|].
+  destruct (flt y (of_bits 0) && flt x (fsub (of_bits 18442240474082181119) y));
+    [destruct (Rlt_bool (Rabs s) (bpow radix2 1024)); [left|]; reflexivity|].
+  cbv zeta. unfold fadd, b64_plus.
+  match goal with |- context [Bplus 53 1024 ?a ?b binop_nan_pl64 mode_NE x y] => generalize a b end.
+  intros Hp He.
+  pose proof (Bplus_correct 53 1024 Hp He binop_nan_pl64 mode_NE x y Hx Hy) as H.
+  change (round radix2 (SpecFloat.fexp 53 1024) (round_mode mode_NE) (B2R 53 1024 x + B2R 53 1024 y)) with s in H.
+  remember (Bplus 53 1024 Hp He binop_nan_pl64 mode_NE x y) as r eqn:Er. clear Er.
+  destruct (Rlt_bool (Rabs s) (bpow radix2 1024)) eqn:Elt.
+  - destruct H as (HR & Hfin & _).
+    assert (Hinf : fis_inf r = false) by (destruct r; cbn in Hfin |- *; congruence).
+    rewrite Hinf. right. exists r. repeat split; assumption.
+  - destruct H as (H & _).
+    assert (Hinf : fis_inf r = true).
+    { unfold binary_overflow in H. cbn in H. destruct r; cbn in H; try discriminate; reflexivity. }
+    rewrite Hinf. reflexivity.
+Qed.
+
+Lemma fneg_finite (y : f64) : fis_finite (fneg y) = fis_finite y.
+Proof. unfold fneg, b64_opp, fis_finite. apply is_finite_Bopp. Qed.
+
+Lemma fneg_B2R (y : f64) : B2R 53 1024 (fneg y) = - B2R 53 1024 y.
+Proof. unfold fneg, b64_opp. apply B2R_Bopp. Qed.
+
+Theorem subF_correct (x y : f64) : fis_finite x = true -> fis_finite y = true ->
+  let s := rnd (B2R 53 1024 x - B2R 53 1024 y) in
+  if Rlt_bool (Rabs s) (bpow radix2 1024) then
+    subF x y = Err (EExc FloatOverflow) \/
+    exists r, subF x y = Ok r /\ B2R 53 1024 r = s /\ fis_finite r = true
+  else subF x y = Err (EExc FloatOverflow).
+Proof.
+  intros Hx Hy. unfold subF.
+  pose proof (addF_correct x (fneg y) Hx) as H. rewrite fneg_finite in H. specialize (H Hy).
+  rewrite fneg_B2R in H. exact H.
+Qed.
